@@ -452,14 +452,14 @@ _ADDED10 = {
     "C07": " (S2, extended) in a generated write method nothing returns between the state check and the assignment that records the step.",
     "C08": " (V1-V4) visitor and rewriter coverage registered here too.",
     "C09": " (P6c) every yaml Decode of a model file stands in a loop (multi-document files); (BN2) see C06; (P6b) registered here too.",
-    "C10": " (BN2) see C06.",
+    "C10": " (BN2) see C06; (LF1) see C18.",
     "C11": " (I4) start value, step and rejecting test of the import depth counter, evaluated for nesting levels 0,1,2,…, reject exactly level MaxImportRecursionDepth, and the test is a top-level statement; "
            "(P6c) see C09; (I1, L3) registered here too.",
     "C12": " (T3, T3b) registered here too: the working directory is restored on every path.",
     "C13": " (P6c) see C09; (BN2) see C06 — the expanded `length:` of a vector is not narrowed silently while the shorthand is rejected; (O1) registered here too.",
     "C14": " (PL2) see C01.",
     "C15": " (V3, V4) see C04.",
-    "C18": " (I4) see C11.",
+    "C18": " (I4) see C11; (LF1) a range loop that fills `X[i]` with a pointer fills every entry: no `continue` precedes the assignment.",
     "C20": " (T12) in generateImpl every return in front of the last back end's Generate call is the return of an error.",
     "C16": " (RB1) see C05.",
     "C17": " (RB1) see C05; (NL1) registered here too; (NL2, when nlohmann/json.hpp is installed) ReadProtocolValue decides the presence of a step by key lookup, never by is_null() or operator[] — a null item is a value.",
